@@ -178,6 +178,8 @@ mut("compile_checks_size_before_optimizing", ["C09"], "sweep/callorder:compile/C
     [("compiler.go", "\toptimize(conf, ast)\n\n\tres := check(ast)\n\tif res.err != nil {\n\t\treturn nil, res.err\n\t}\n", "\tres := check(ast)\n\tif res.err != nil {\n\t\treturn nil, res.err\n\t}\n\n\toptimize(conf, ast)\n")], "the size / arity limits are checked on the tree before optimisation")
 mut("lexer_string_backslash_escapes", ["C13"], "parser.lex/inv/loop1[literal-ends-at-the-first-quote]",
     [("parser.go", "\t\t\tfor ; i < len(A); i++ {\n\t\t\t\tif A[i] == '\"' {\n\t\t\t\t\ti++\n\t\t\t\t\treturn string(A[start:i]), nil", "\t\t\tfor ; i < len(A); i++ {\n\t\t\t\tif A[i] == '\\\\' && i+1 < len(A) {\n\t\t\t\t\ti++\n\t\t\t\t\tcontinue\n\t\t\t\t}\n\t\t\t\tif A[i] == '\"' {\n\t\t\t\t\ti++\n\t\t\t\t\treturn string(A[start:i]), nil")], "the lexer starts to honour backslash escapes inside string literals (Dump prints raw text)")
+mut("infix_ties_do_not_reduce", ["C15"], "parser.parseInfixExpression/exit/loop1[reduction-stops-only-below-a-looser-operator]",
+    [("parser.go", "\t\t\t\tif comparePrecedence(car, top.t) > 0 {\n\t\t\t\t\tbreak", "\t\t\t\tif comparePrecedence(car, top.t) >= 0 {\n\t\t\t\t\tbreak")], "operators of equal precedence group from the right")
 
 def main():
     out = os.path.join(os.path.dirname(os.path.abspath(__file__)), "mutants")
